@@ -469,6 +469,17 @@ func c02(c *Ctx) {
 		}
 	}
 
+	// ---- R5 no decode/validation error is overwritten or lost before it is examined
+	{
+		roots := []*ssa.Function{HV}
+		for _, fn := range p.ModuleFuncs() {
+			if fn.Pkg == p.SSAPkg("history") && fn.Signature.Recv() != nil && core.TypeName(fn.Signature.Recv().Type()) == "Network" {
+				roots = append(roots, fn)
+			}
+		}
+		lostErrorRule(c, "R5.error-not-lost", "history validation path", roots, []string{"history", "validation", "types/history"})
+	}
+
 	// ---- R4 history network gating
 	hist := p.SSAPkg("history")
 	for _, fn := range p.ModuleFuncs() {
@@ -530,4 +541,53 @@ func c02(c *Ctx) {
 // derivesSame: a derives from the same underlying value as b (e.g. both from one decode call).
 func derivesSame(a, b ssa.Value) bool {
 	return core.Derives(a, func(x ssa.Value) bool { return x == b || core.SameValue(x, b) }, core.DeriveOpts{})
+}
+
+// lostErrorRule: on the functions reachable from roots inside the given packages no bound error
+// value may be overwritten or dropped on a path that goes on to succeed.
+func lostErrorRule(c *Ctx, rule, what string, roots []*ssa.Function, pkgs []string) {
+	p, r := c.P, c.R
+	reach := p.Reachable(roots)
+	in := map[string]bool{}
+	for _, k := range pkgs {
+		in[core.ModPath+"/"+k] = true
+	}
+	var fns []*ssa.Function
+	for f := range reach {
+		root := f
+		for root.Parent() != nil {
+			root = root.Parent()
+		}
+		if root.Pkg != nil && in[root.Pkg.Pkg.Path()] {
+			fns = append(fns, f)
+		}
+	}
+	sort.Slice(fns, func(i, j int) bool { return fns[i].String() < fns[j].String() })
+	n := 0
+	for _, f := range fns {
+		ds := core.DroppedErrors(f)
+		seenK := map[string]int{}
+		for _, d := range ds {
+			callee := "call"
+			switch x := d.Def.(type) {
+			case *ssa.Call:
+				callee = shortID(core.CalleeID(x))
+			case *ssa.Extract:
+				if cc, ok := x.Tuple.(*ssa.Call); ok {
+					callee = shortID(core.CalleeID(cc))
+				}
+			}
+			k := core.FuncName(f) + " error-of " + callee
+			seenK[k]++
+			if seenK[k] > 1 {
+				k = fmt.Sprintf("%s #%d", k, seenK[k])
+			}
+			r.Fail(rule, k, p.Pos(core.InstrPos(d.Def.(ssa.Instruction))), "an error on the validation path can be lost: "+d.How+" ("+p.PathString(d.Path)+"): malformed content that made this call fail is treated as valid")
+		}
+		if len(ds) == 0 {
+			n++
+		}
+	}
+	r.Pass(rule, what, "-", fmt.Sprintf("%d functions checked: no bound error value is overwritten or dropped before being examined on a path that can succeed", n))
+	r.Count("functions_checked_for_lost_errors", len(fns))
 }
